@@ -25,13 +25,19 @@ type caseC19 struct {
 	Prefix int      `json:"prefix,omitempty"`
 }
 
+// c19InFlight is the case being rendered, for the watchdog.
+var c19InFlight caseC19
+
 func renderTotal(p mq.ControlPacket) (sig, msg string) {
 	var s string
-	if pan := guard.Watched(1<<16, func() []byte { return nil }, func() { s = p.String() }); pan != nil {
+	render := func() []byte {
+		return mustJSON(vf.Failure{Property: "C19", Kind: "hang", Case: mustJSON(c19InFlight), Signature: "hang", Message: "String/Dump did not return"})
+	}
+	if pan := guard.Watched(1<<16, render, func() { s = p.String() }); pan != nil {
 		return "string-panic:" + panicSite(pan), fmt.Sprintf("%T.String() panicked: %v\n%s", p, pan.Value, pan.Stack)
 	}
 	_ = s
-	if pan := guard.Call(func() { mq.Dump(io.Discard, p) }); pan != nil {
+	if pan := guard.Watched(1<<16, render, func() { mq.Dump(io.Discard, p) }); pan != nil {
 		return "dump-panic:" + panicSite(pan), fmt.Sprintf("Dump(%T) panicked: %v\n%s", p, pan.Value, pan.Stack)
 	}
 	if wf, ok := p.(mq.HasWellFormed); ok {
@@ -47,6 +53,7 @@ func renderTotal(p mq.ControlPacket) (sig, msg string) {
 }
 
 func checkC19(c caseC19) (sig, msg string) {
+	c19InFlight = c
 	var n int
 	switch {
 	case scan(c.Origin, "zero:%d", &n):
